@@ -836,6 +836,8 @@ class PE:
             return Vec(fn(as_p(x)) if (is_num(x) or isinstance(x, P)) else Opaque('%s(%s)' % (n, x)) for x in args[0])
         if n in ('numpy.sqrt', 'math.sqrt') and args and (is_num(args[0]) or isinstance(args[0], P)):
             return p_sqrt(as_p(args[0]))
+        if n in ('numpy.ceil', 'math.ceil') and args and (is_num(args[0]) or isinstance(args[0], P)):
+            return -p_floor(-as_p(args[0]))         # ceil(x) = -floor(-x), exact
         if n in ('numpy.floor', 'math.floor') and args and (is_num(args[0]) or isinstance(args[0], P)):
             return p_floor(as_p(args[0]))
         if n in ('numpy.prod', 'math.prod') and args:
